@@ -3,3 +3,6 @@
 HOOK_COMMITS = ["428da50bb844be279c4bdb3ff3d567cc39c31a49", "4c96223e0aad98cdee211edf97dcb88b8070700d"]
 NOT_YET = "check not built yet in this round (see DESIGN.md section 10 for the build order)"
 NOT_APPLICABLE = {}
+
+# checks that are finished and reviewed; only these are rendered into MANIFEST.json
+ENABLED = ["C10", "C18"]
